@@ -62,6 +62,7 @@ MUT = {
  "rollback_dropped": (E+"put.go", "if isFatal && len(goodShards) > 0 {", "if false && isFatal && len(goodShards) > 0 {"),
  "locked_not_fatal": (E+"put.go", """			errors.Is(err, apistatus.ErrObjectLocked) ||
 """, ""),
+ "rollback_first_only": (E+"put.go", "		for _, sh := range goodShards {\n			var err = sh.Delete(", "		for _, sh := range goodShards[:1] {\n			var err = sh.Delete("),
  "gc_ignores_mode": (S+"gc.go", """	if s.info.Mode != mode.ReadWrite {
 		return
 	}
